@@ -3,6 +3,7 @@
 package store
 
 import (
+	"testing"
 	"bytes"
 	"fmt"
 	"os"
@@ -466,4 +467,10 @@ func genBatch(r *simkit.Rng, nkeys, delpct int, nextVal *int64) []simkit.Step {
 		}
 	}
 	return out
+}
+
+func init() {
+	simkit.Register("store-trie", func(scratch string, t *testing.T) simkit.World { return &C10{Scratch: scratch} })
+	simkit.Register("store-proof", func(scratch string, t *testing.T) simkit.World { return &C11{Scratch: scratch} })
+	simkit.Register("store-snap", func(scratch string, t *testing.T) simkit.World { return &C12{Scratch: scratch} })
 }
